@@ -15,9 +15,9 @@
 //! Oracle (from the statement, per reader mode x CAWG trust mode):
 //!   control (no mutation): a `cawg.identity.*` / `cawg.x509.*validated` success, no `cawg.*` failure
 //!           (trust mode "no-anchor": the only failure allowed is cawg.x509.credential.untrusted);
-//!   mutant: at least one failure code starting with `cawg.` (no-anchor: and no
-//!           `cawg.identity.well-formed` success);
-//!   state:  validation_state(mutant) == validation_state(control) for pre-signing mutants;
+//!   mutant: at least one failure code starting with `cawg.` that the control does not have;
+//!   state:  a pre-signing mutant whose only additional failures are CAWG codes is never Invalid
+//!           (Trusted -> Valid downgrades are counted, not judged: the statement only forbids Invalid);
 //!   post-signing mutants: a cawg failure OR state Invalid.
 use c2pa::dynamic_assertion::{DynamicAssertion, DynamicAssertionContent, PartialClaim};
 use c2pa::identity::validator::CawgValidator;
@@ -53,6 +53,10 @@ enum Mutation {
     SigTruncate,
     /// after signing: flip a byte inside the stored content of a referenced custom assertion
     PostEditReferenced(usize),
+    /// the inner signer-payload mutation, followed by a fresh, valid identity signature over the mutated
+    /// payload (X509CredentialHolder + the ed25519 fixture credential): only the comparison of the
+    /// references with the claim can notice it
+    Resigned(Box<Mutation>),
 }
 
 impl Mutation {
@@ -76,6 +80,7 @@ impl Mutation {
             Mutation::AddRole => "add-role".into(),
             Mutation::SigTruncate => "cose-truncate".into(),
             Mutation::PostEditReferenced(_) => "post-edit-referenced".into(),
+            Mutation::Resigned(m) => format!("resigned+{}", m.name()),
         }
     }
     fn component(&self) -> &'static str {
@@ -87,11 +92,70 @@ impl Mutation {
             Mutation::SigValFlip(_) | Mutation::ProtectedFlip(_) | Mutation::SwapChain | Mutation::SigTruncate => "signature",
             Mutation::Pad1NonZero | Mutation::Pad2NonZero | Mutation::PadRedistribute => "padding",
             Mutation::PostEditReferenced(_) => "referenced_assertion",
+            Mutation::Resigned(_) => "signer_payload",
         }
+    }
+    /// coarse cause class used in signatures
+    fn cause_group(&self) -> &'static str {
+        match self {
+            Mutation::RefHashFlip(_) | Mutation::RefUrlSwap(_) => "ref-hash-mismatch",
+            Mutation::RefUrlAbsent(_) => "ref-not-in-claim",
+            Mutation::DropRef(_) | Mutation::DropHardBinding | Mutation::AddRef | Mutation::DupRef(_) | Mutation::AddRole => "payload-edited-after-identity-signing",
+            Mutation::SigType("cawg.identity_claims_aggregation") => "sig-type-other-known",
+            Mutation::SigType(_) => "sig-type-unknown",
+            Mutation::SigValFlip(_) => "cose-signature-value",
+            Mutation::ProtectedFlip(_) | Mutation::SwapChain | Mutation::SigTruncate => "cose-structure-or-credential",
+            Mutation::Pad1NonZero | Mutation::Pad2NonZero | Mutation::PadRedistribute => "padding",
+            Mutation::PostEditReferenced(_) => "referenced-assertion-content",
+            Mutation::None => "control",
+            Mutation::Resigned(m) => match **m {
+                Mutation::RefHashFlip(_) | Mutation::RefUrlSwap(_) => "ref-hash-mismatch",
+                Mutation::RefUrlAbsent(_) => "ref-not-in-claim",
+                _ => "reference-set-invalid",
+            },
+        }
+    }
+    fn selector(&self) -> usize {
+        match self {
+            Mutation::RefHashFlip(n) | Mutation::RefUrlAbsent(n) | Mutation::RefUrlSwap(n) | Mutation::DropRef(n) | Mutation::DupRef(n) | Mutation::SigValFlip(n) | Mutation::ProtectedFlip(n) | Mutation::PostEditReferenced(n) => *n,
+            Mutation::Resigned(m) => m.selector(),
+            _ => 0,
+        }
+    }
+    fn from_name(name: &str, n: usize) -> Option<Mutation> {
+        if let Some(inner) = name.strip_prefix("resigned+") {
+            return Mutation::from_name(inner, n).map(|m| Mutation::Resigned(Box::new(m)));
+        }
+        Some(match name {
+            "control" => Mutation::None,
+            "ref-hash-flip" => Mutation::RefHashFlip(n),
+            "ref-url-absent" => Mutation::RefUrlAbsent(n),
+            "ref-url-swap" => Mutation::RefUrlSwap(n),
+            "drop-ref" => Mutation::DropRef(n),
+            "drop-hard-binding" => Mutation::DropHardBinding,
+            "add-ref" => Mutation::AddRef,
+            "dup-ref" => Mutation::DupRef(n),
+            "cose-sigval-flip" => Mutation::SigValFlip(n),
+            "cose-protected-flip" => Mutation::ProtectedFlip(n),
+            "sig-type:cawg.x509.cose2" => Mutation::SigType("cawg.x509.cose2"),
+            "sig-type:cawg.identity_claims_aggregation" => Mutation::SigType("cawg.identity_claims_aggregation"),
+            "pad1-nonzero" => Mutation::Pad1NonZero,
+            "pad2-nonzero" => Mutation::Pad2NonZero,
+            "pad-redistribute" => Mutation::PadRedistribute,
+            "swap-chain" => Mutation::SwapChain,
+            "add-role" => Mutation::AddRole,
+            "cose-truncate" => Mutation::SigTruncate,
+            "post-edit-referenced" => Mutation::PostEditReferenced(n),
+            _ => return None,
+        })
     }
     /// statement says a change must be reported
     fn judged(&self) -> bool {
-        !matches!(self, Mutation::None | Mutation::PadRedistribute)
+        match self {
+            Mutation::None | Mutation::PadRedistribute => false,
+            Mutation::Resigned(m) => **m != Mutation::None,
+            _ => true,
+        }
     }
 }
 
@@ -190,25 +254,7 @@ fn cose_array(v: &mut Cv) -> Option<&mut Vec<Cv>> {
 
 fn other_chain_der() -> Vec<Vec<u8>> {
     // certificate chain of a different fixture credential (es384)
-    let pem = String::from_utf8(signers::cert_pem("es384")).unwrap_or_default();
-    let mut out = Vec::new();
-    let mut cur = String::new();
-    let mut inside = false;
-    for line in pem.lines() {
-        if line.starts_with("-----BEGIN CERTIFICATE") {
-            inside = true;
-            cur.clear();
-        } else if line.starts_with("-----END CERTIFICATE") {
-            inside = false;
-            use base64::Engine;
-            if let Ok(d) = base64::engine::general_purpose::STANDARD.decode(cur.as_bytes()) {
-                out.push(d);
-            }
-        } else if inside {
-            cur.push_str(line.trim());
-        }
-    }
-    out
+    pem_chain_der("es384")
 }
 
 fn replace_x5chain(hdr: &mut Cv, chain: &[Vec<u8>]) -> bool {
@@ -237,7 +283,58 @@ struct Applied {
     referenced_urls: Vec<String>,
 }
 
+/// Raw Ed25519 signer over the fixture key (openssl), for re-signing mutated signer payloads.
+struct EdRaw(openssl::pkey::PKey<openssl::pkey::Private>);
+
+impl c2pa::RawSigner for EdRaw {
+    fn sign(&self, data: &[u8]) -> Result<Vec<u8>, c2pa::RawSignerError> {
+        let mut s = openssl::sign::Signer::new_without_digest(&self.0).map_err(|e| c2pa::RawSignerError::CryptoLibraryError(e.to_string()))?;
+        s.sign_oneshot_to_vec(data).map_err(|e| c2pa::RawSignerError::CryptoLibraryError(e.to_string()))
+    }
+    fn alg(&self) -> SigningAlg {
+        SigningAlg::Ed25519
+    }
+    fn max_signature_size(&self) -> usize {
+        64
+    }
+}
+
+fn pem_chain_der(alg: &str) -> Vec<Vec<u8>> {
+    let pem = String::from_utf8(signers::cert_pem(alg)).unwrap_or_default();
+    let mut out = Vec::new();
+    let mut cur = String::new();
+    let mut inside = false;
+    for line in pem.lines() {
+        if line.starts_with("-----BEGIN CERTIFICATE") {
+            inside = true;
+            cur.clear();
+        } else if line.starts_with("-----END CERTIFICATE") {
+            inside = false;
+            use base64::Engine;
+            if let Ok(d) = base64::engine::general_purpose::STANDARD.decode(cur.as_bytes()) {
+                out.push(d);
+            }
+        } else if inside {
+            cur.push_str(line.trim());
+        }
+    }
+    out
+}
+
+/// A valid X.509 identity signature (ed25519 fixture credential) over `sp`.
+fn resign(sp: &Cv) -> Option<Vec<u8>> {
+    use c2pa::identity::builder::CredentialHolder;
+    let payload: c2pa::identity::SignerPayload = sp.deserialized().ok()?;
+    let key = openssl::pkey::PKey::private_key_from_pem(&signers::key_pem("ed25519")).ok()?;
+    let holder = c2pa::identity::x509::X509CredentialHolder::from_raw_signer(Box::new(EdRaw(key)), pem_chain_der("ed25519"));
+    holder.sign(&payload).ok()
+}
+
 fn apply_mutation(m: &Mutation, bytes: &[u8], size: Option<usize>, claim: &PartialClaim, applied: &mut Applied) -> Option<Vec<u8>> {
+    let (m, do_resign) = match m {
+        Mutation::Resigned(inner) => (&**inner, true),
+        other => (other, false),
+    };
     let mut ia = dec(bytes)?;
     let orig_pad2 = match map_get_mut(&mut ia, "pad2") {
         Some(Cv::Bytes(b)) => Some(b.len()),
@@ -370,6 +467,21 @@ fn apply_mutation(m: &Mutation, bytes: &[u8], size: Option<usize>, claim: &Parti
         }
         if let Some(Cv::Array(a)) = map_get_mut(sp, "referenced_assertions") {
             applied.refs_after = a.len();
+        }
+    }
+    if do_resign && applied.applied {
+        let sp = map_get_mut(&mut ia, "signer_payload")?.clone();
+        match resign(&sp) {
+            Some(sig) => {
+                map_set(&mut ia, "signature", Cv::Bytes(sig));
+                need_repad = true;
+                applied.note.push_str(" + fresh valid identity signature over the mutated payload");
+            }
+            None => {
+                applied.applied = false;
+                applied.note.push_str(" (re-signing failed)");
+                return None;
+            }
         }
     }
     match m {
@@ -708,7 +820,7 @@ struct Res {
 }
 
 fn case_json(c: &Case) -> serde_json::Value {
-    json!({"asset": c.asset, "format": c.fmt, "referenced_custom": c.refs.iter().map(|i| CUSTOM[*i]).collect::<Vec<_>>(), "c2pa_alg": c.c2pa_alg, "cawg_alg": c.cawg_alg, "mutation": format!("{:?}", c.mutation)})
+    json!({"asset": c.asset, "format": c.fmt, "referenced_custom": c.refs.iter().map(|i| CUSTOM[*i]).collect::<Vec<_>>(), "c2pa_alg": c.c2pa_alg, "cawg_alg": c.cawg_alg, "mutation": c.mutation.name(), "selector": c.mutation.selector()})
 }
 
 fn run_case(c: &Case, controls: &BTreeMap<String, Obs>, rt: &tokio::runtime::Runtime) -> (Res, BTreeMap<String, Obs>) {
@@ -782,36 +894,48 @@ fn run_case(c: &Case, controls: &BTreeMap<String, Obs>, rt: &tokio::runtime::Run
             let ctl = controls.get(&key);
             let post = matches!(c.mutation, Mutation::PostEditReferenced(_));
             let has_fail = !o.cawg_fail.is_empty();
-            let wellformed_ok = o.cawg_ok.contains("cawg.identity.well-formed");
             if post {
                 if !(has_fail || o.state == "Invalid") {
                     res.violations.push((format!("{comp}|{mname}|{trust}|undetected"), format!("referenced assertion edited after signing: no cawg failure and state {} ({rm})", o.state), w(json!({}))));
                 }
                 continue;
             }
-            let detected = if *trust == "no-anchor" { has_fail && !wellformed_ok } else { has_fail };
-            if !detected {
+            // a change is "reported" when the mutant shows a cawg failure code the unmutated control does not
+            let ctl_fail: BTreeSet<String> = match ctl {
+                Some(c) => c.cawg_fail.clone(),
+                None if *trust == "no-anchor" => ["cawg.x509.credential.untrusted".to_string()].into_iter().collect(),
+                None => BTreeSet::new(),
+            };
+            let new_fail: BTreeSet<String> = o.cawg_fail.difference(&ctl_fail).cloned().collect();
+            if new_fail.is_empty() {
                 res.violations.push((
-                    format!("{comp}|{mname}|{trust}|no-cawg-failure"),
-                    format!("mutated identity assertion ({}) validated without a cawg failure code ({rm}); cawg successes {:?}, state {}", signed.applied.note, o.cawg_ok, o.state),
+                    format!("{comp}|{}|no-cawg-failure", c.mutation.cause_group()),
+                    format!(
+                        "mutated identity assertion ({mname}: {}) produced no cawg failure code beyond the control's {:?} (trust mode {trust}, reader mode {rm}); cawg successes {:?}, state {} (control {})",
+                        signed.applied.note,
+                        ctl_fail,
+                        o.cawg_ok,
+                        o.state,
+                        ctl.map(|c| c.state.as_str()).unwrap_or("?")
+                    ),
                     w(json!({})),
                 ));
             }
-            if *trust == "no-anchor" {
-                if let Some(ctl) = ctl {
-                    if o.cawg_fail.is_subset(&ctl.cawg_fail) {
-                        res.counters.push((format!("no-anchor:mutant-has-only-the-controls-failures:{mname}"), 1));
-                    }
-                }
-            }
             match ctl {
                 Some(ctl) => {
-                    if o.state != ctl.state && o.other_fail.is_subset(&ctl.other_fail) {
+                    let only_cawg_new = o.other_fail.is_subset(&ctl.other_fail);
+                    if o.state == "Invalid" && ctl.state != "Invalid" && only_cawg_new {
+                        let mut fams: BTreeSet<String> = new_fail.iter().map(|f| f.split('.').take(2).collect::<Vec<_>>().join(".")).collect();
+                        if fams.len() > 1 {
+                            fams.remove("cawg.x509");
+                        }
                         res.violations.push((
-                            format!("{comp}|{mname}|{trust}|state-changed-by-cawg-failure"),
-                            format!("state {} (control {}) although the only new failures are CAWG codes {:?} ({rm})", o.state, ctl.state, o.cawg_fail),
+                            format!("any|manifest-invalid-by-cawg-code|{}", fams.into_iter().collect::<Vec<_>>().join("+")),
+                            format!("manifest state Invalid (control {}) although the only failures the control lacks are CAWG codes {:?} ({mname}, trust mode {trust}, reader mode {rm})", ctl.state, new_fail),
                             w(json!({"control": obs_json(ctl)})),
                         ));
+                    } else if o.state != ctl.state && only_cawg_new {
+                        res.counters.push((format!("state-change-not-invalid:{}->{}", ctl.state, o.state), 1));
                     } else if o.state != ctl.state {
                         res.unjudged.push(format!("state-differs-with-non-cawg-failures:{mname}:{:?}", o.other_fail));
                     }
@@ -830,7 +954,8 @@ fn main() {
     run.rule = "cases = (tiny jpg/png/mp4) x (subset of 5 custom assertions referenced by the identity assertion, sizes 0..5 => 1..6 references incl. the hard binding) x (CAWG credential ed25519/es256/ps256) x mutation (17 kinds over signer payload / COSE signature / padding / referenced assertion, with a seeded position selector) ; every signed asset is validated in 3 CAWG trust modes x 2 reader modes (inline decode, post_validate_async with CawgValidator). Non-trivial = the mutation was applied (wrapper confirms) and the asset signed; distinct = (format, component, mutation, trust mode, #references, reader mode, state, cawg failure codes).".into();
     run.assumptions = vec![
         "mutations are applied to the CBOR the SDK's identity builder returns and re-padded to the reserved size; the C2PA claim is then computed by the SDK over the mutated assertion".into(),
-        "trust mode no-anchor: the control is allowed cawg.x509.credential.untrusted; a mutant is detected if it has a cawg failure and lacks cawg.identity.well-formed".into(),
+        "trust mode no-anchor: the control is allowed cawg.x509.credential.untrusted; a mutant is detected if it has a cawg failure code the control lacks".into(),
+        "a Trusted -> Valid change caused by tolerated CAWG failures is counted, not judged (the statement forbids only Invalid)".into(),
         "moving zero bytes between pad1 and pad2 keeps a valid assertion: generated, reported, not judged".into(),
         "state comparison is judged only when the mutant has no non-CAWG failure the control lacks".into(),
     ];
@@ -865,6 +990,8 @@ fn main() {
         let base = Case { asset: assets_l[*ai].0, fmt: assets_l[*ai].1, refs: refs.clone(), c2pa_alg: c2pa, cawg_alg: cawg, mutation: Mutation::None };
         controls_cases.push(base.clone());
         let mut muts = vec![
+            Mutation::Pad1NonZero,
+            Mutation::Pad2NonZero,
             Mutation::RefHashFlip(rng.usize(1000)),
             Mutation::RefHashFlip(0),
             Mutation::RefUrlAbsent(rng.usize(1000)),
@@ -877,8 +1004,12 @@ fn main() {
             Mutation::ProtectedFlip(rng.usize(100_000)),
             Mutation::SigType("cawg.x509.cose2"),
             Mutation::SigType("cawg.identity_claims_aggregation"),
-            Mutation::Pad1NonZero,
-            Mutation::Pad2NonZero,
+            Mutation::Resigned(Box::new(Mutation::None)),
+            Mutation::Resigned(Box::new(Mutation::RefHashFlip(rng.usize(1000)))),
+            Mutation::Resigned(Box::new(Mutation::RefUrlAbsent(rng.usize(1000)))),
+            Mutation::Resigned(Box::new(Mutation::RefUrlSwap(rng.usize(1000)))),
+            Mutation::Resigned(Box::new(Mutation::DropHardBinding)),
+            Mutation::Resigned(Box::new(Mutation::DupRef(rng.usize(1000)))),
             Mutation::PadRedistribute,
             Mutation::SwapChain,
             Mutation::AddRole,
@@ -901,8 +1032,21 @@ fn main() {
 
     if let Some(p) = run.replay.clone() {
         let v: serde_json::Value = serde_json::from_slice(&std::fs::read(&p).expect("replay file")).expect("json");
-        println!("replay: re-run `./check C33`; the witness names the configuration and mutation: {}", v["witness"]["case"]);
-        std::process::exit(2);
+        let w = &v["witness"]["case"];
+        let leak = |s: &str| -> &'static str { Box::leak(s.to_string().into_boxed_str()) };
+        let refs: Vec<usize> = w["referenced_custom"].as_array().map(|a| a.iter().filter_map(|l| CUSTOM.iter().position(|c| Some(*c) == l.as_str())).collect()).unwrap_or_default();
+        let mutation = Mutation::from_name(w["mutation"].as_str().unwrap_or(""), w["selector"].as_u64().unwrap_or(0) as usize).expect("mutation name");
+        let base = Case { asset: leak(w["asset"].as_str().unwrap_or("tiny.jpg")), fmt: leak(w["format"].as_str().unwrap_or("jpg")), refs, c2pa_alg: leak(w["c2pa_alg"].as_str().unwrap_or("es256")), cawg_alg: leak(w["cawg_alg"].as_str().unwrap_or("ed25519")), mutation: Mutation::None };
+        let rt = tokio::runtime::Builder::new_current_thread().enable_all().build().expect("tokio");
+        let (_, controls) = run_case(&base, &BTreeMap::new(), &rt);
+        let mut c = base.clone();
+        c.mutation = mutation;
+        let (r, _) = run_case(&c, &controls, &rt);
+        println!("replay: classes={:?} trivial={:?}", r.classes, r.trivial);
+        for (sig, what, _) in &r.violations {
+            println!("replay: violation sig={sig} {what}");
+        }
+        std::process::exit(if r.violations.is_empty() { 0 } else { 1 });
     }
 
     // phase 1: controls
